@@ -12,3 +12,6 @@ def run(ctx, rep):
     more.rule_lsub_request(mod, rep)
     more.rule_preset_joined(mod, rep)
     more.rule_super_bnd_test(mod, rep)
+    more.rule_snode_continue(mod, rep)
+    from ..rules import more2
+    more2.rule_slot_bound(mod, rep)
